@@ -90,9 +90,9 @@ def gen_scenario(seed: int, light: bool = False) -> Dict[str, Any]:
     for nme in chosen:
         p = np.array(sc["nodes"][nme])
         if kind == "mesh":
-            t = rs.weighted([("free", 3), ("line", 3), ("plane", 2), ("radial", 2), ("curve_line", 1), ("curve_circle", 1), ("curve_interp", 1), ("surface", 1)])
+            t = rs.weighted([("free", 3), ("line", 3), ("plane", 2), ("radial", 2), ("curve_line", 2), ("curve_circle", 1), ("curve_interp", 2), ("surface", 1)])
         else:
-            t = rs.weighted([("plane", 4), ("line", 3), ("radial", 1), ("curve_line", 1), ("curve_interp", 1)])
+            t = rs.weighted([("plane", 4), ("line", 3), ("radial", 1), ("curve_line", 2), ("curve_interp", 2)])
         spec: Dict[str, Any] = {"node": nme, "type": t}
         inplane = kind == "sketch"
 
@@ -104,7 +104,7 @@ def gen_scenario(seed: int, light: bool = False) -> Dict[str, Any]:
 
         # sometimes the constraint ends at (or just past) the vertex: a bounded solver then
         # stops on the bound, and the next iteration starts from there
-        near_end = rs.chance(0.3)
+        near_end = rs.chance(0.4)
         if t == "line":
             d = np.array(direction())
             a, b = rs.uniform(0.1, 0.5), (rs.pick([0.0, rs.uniform(0.0, 0.03)]) if near_end else rs.uniform(0.1, 0.5))
@@ -143,7 +143,7 @@ def gen_scenario(seed: int, light: bool = False) -> Dict[str, Any]:
             if not inplane:
                 e = unit(np.cross(d, unit([0.3, 0.5, 0.8] if abs(d[0]) > 0.8 else [1.0, 0.2, 0.1])))
             pts = []
-            for s in (-0.5, -0.25, 0.0, 0.25, 0.5):
+            for s in ((-0.6, -0.4, -0.2, 0.0) if near_end else (-0.5, -0.25, 0.0, 0.25, 0.5)):
                 bend = 0.0 if s == 0.0 else rs.uniform(-0.05, 0.05)
                 pts.append([round(x, 6) for x in (p + s * d + bend * e)])
             spec["points"] = pts
